@@ -192,9 +192,9 @@ pub fn tag_set(max: usize) -> BoxedStrategy<Vec<u8>> {
   .boxed()
 }
 
-/// The list handed to `Server::new` for a tag set: for about a third of the sets (a pure
+/// The list handed to `Server::new` for a tag set: for about half of the sets (a pure
 /// function of the set, so replay and shrinking are unaffected) the list is reordered and
-/// names some tags more than once.  Registering a tag twice registers it.
+/// names some tags more than once - now and then more than 256 entries long.  Registering a tag twice registers it.
 pub fn registration_list(mds: &[u8]) -> Vec<u8> {
   if mds.is_empty() {
     return vec![];
@@ -203,8 +203,14 @@ pub fn registration_list(mds: &[u8]) -> Vec<u8> {
   for b in mds {
     h = (h ^ *b as u64).wrapping_mul(0x0000_0100_0000_01b3);
   }
-  match h % 3 {
-    0 => {
+  match h % 6 {
+    // a long list (more entries than there are tags): one tag named 256 times, then every tag
+    1 => {
+      let mut v = vec![mds[(h >> 8) as usize % mds.len()]; 256];
+      v.extend_from_slice(mds);
+      v
+    }
+    0 | 3 => {
       let mut v: Vec<u8> = mds.iter().rev().cloned().collect();
       let a = mds[(h >> 8) as usize % mds.len()];
       let b = mds[(h >> 24) as usize % mds.len()];
